@@ -112,16 +112,22 @@ SCENARIOS = {
         query Q { me { ...UserWithFriend ...UserName } }
         query Inherit { me { ...Child ...UserName } }
     """, {"q": {"QMe": ["UserWithFriend", "UserName"]}, "inherit": {"InheritMe": ["Child", "UserName"]}}),
-}
-
-
-KNOWN = {
-    # fragment on an interface used as base class in one operation and unpacked (spread on an implementing object) in another
+    # fixed 1b41dca (was finding F11): base class in one operation, unpacked (spread on an implementing object) in another
     "fragment-base-in-one-operation-unpacked-in-another": ("""
         fragment OnNode on Node { id }
         query AsBase { node { ...OnNode } }
         query Unpacked { me { ...OnNode name } }
-    """, {"as_base": {"AsBaseNode": ["OnNode"]}}),
+    """, {"as_base": {"AsBaseNode": ["OnNode"]}, "fragments": {"OnNode": ["BaseModel"]}}),
+    "fragment-inherited-only-by-a-fragment-and-unpacked-in-an-operation": ("""
+        fragment B on Node { id }
+        fragment A on Node { ...B }
+        query Op1 { me { ...B name } }
+        query Op2 { node { ...A } }
+    """, {"op_2": {"Op2Node": ["A"]}, "fragments": {"A": ["B"]}}),
+}
+
+
+KNOWN = {
     # a fragment spread next to another spread fragment that already includes it: both become bases, in alphabetical order
     "fragment-spread-next-to-a-fragment-that-includes-it": ("""
         query GetMe { me { ...Alpha ...Beta } }
